@@ -22,6 +22,10 @@ RULES = {
                 'dependence through every numpy operation of the pipeline) only on input element c and on the extra '
                 'call arguments; the only whole-array predicates steering control flow are the tabled exceptions',
     'R-SHAPE': 'the derivative (and every full_output field) has the shape of x, for x of rank 0..3',
+    'R-ARGMIN': 'selection of the best estimate per element: in the table handed to nanargmin / nanmin by _Limit._get_arg_min a NaN '
+                'error estimate of a column that has valid estimates is still NaN (only all-NaN columns are neutralised), so an invalid '
+                'estimate of one element can never be selected because another element has none; abstract run on a table with one '
+                'all-NaN and one mixed column',
     'R-FORWARD': 'every evaluation of the user function receives the *args and **kwds of the call unchanged',
 }
 
@@ -35,9 +39,9 @@ def run(ctx):
         '(column-wise numpy/scipy routines compute each column independently).')
     rep.assume('numpy/scipy axis=0 kernels (convolve1d, percentile, nanargmin, nanmin, diff) treat columns independently')
     for rid, text in RULES.items():
-        rep.rule(rid, text, {'R-COLSEP': 12, 'R-SHAPE': 12, 'R-FORWARD': 12}[rid])
+        rep.rule(rid, text, {'R-COLSEP': 12, 'R-SHAPE': 12, 'R-FORWARD': 12, 'R-ARGMIN': 1}[rid])
     core = ctx.repo.module('core')
-    shapes = [(), (3,), (2, 2), 'T(3, 2)'] if ctx.tier == 'quick' else [(), (1,), (3,), (2, 2), (2, 1, 2), (1, 3), 'T(3, 2)', 'T(2, 2)']
+    shapes = [(), (1,), (3,), (2, 2), 'T(3, 2)'] if ctx.tier == 'quick' else [(), (1,), (3,), (2, 2), (2, 1, 2), (1, 3), 'T(3, 2)', 'T(2, 2)']
     configs = [('central', 1, 2), ('central', 2, 2), ('forward', 1, 2), ('backward', 2, 3), ('complex', 1, 2),
                ('complex', 3, 2), ('multicomplex', 1, 2), ('multicomplex', 2, 2), ('central', 0, 2)]
     if ctx.tier != 'quick':
@@ -48,11 +52,66 @@ def run(ctx):
             for full_output in (False, True):
                 if ctx.tier == 'quick' and full_output and shape == (2, 2) and method not in ('central', 'complex'):
                     continue
+                if ctx.tier == 'quick' and shape == (1,) and (method, n) not in (('central', 1), ('complex', 1), ('forward', 1)):
+                    continue
                 one(ctx, core, shape, method, n, order, full_output)
                 n_runs += 1
     rep.notes['runs'] = n_runs
+    argmin_table(ctx)
     rep.notes['control_exception_table'] = CONTROL_EXCEPTIONS
     rep.notes['trusted_base'] = ['python ast', 'ndverif abstract interpreter, data-dependence domain and numpy summaries']
+
+
+class _Stop(Exception):
+    pass
+
+
+def argmin_table(ctx):
+    from ..absint import Interp
+    from ..libmodels import Models
+    from ..algebra import Poly
+    from .c18 import NaNV
+    rep = ctx.rep
+    lim = ctx.repo.module('limits')
+    ci = lim.classes.get('_Limit')
+    if ci is None or ci.lookup('_get_arg_min') is None:
+        raise AnalysisError('anchor vanished: limits._Limit._get_arg_min')
+    where = lim.where(ci.lookup('_get_arg_min')[1])
+    seen = []
+
+    def grab(models, a, axis=None, **kw):
+        seen.append(models.np_asarray(a))
+        raise _Stop()
+    models = Models(hooks={'np.nanargmin': grab, 'np.nanmin': grab, 'np.argmin': grab, 'np.min': grab})
+    I = Interp(ctx.repo, models, branch_oracle=lambda i, node, fr, v: None)
+    models.bind(I)
+    e1, e2 = Poly.sym('err1'), Poly.sym('err2')
+    nan = NaNV()
+    table = Arr((3, 2), [nan, nan, nan, e1, nan, e2])          # column 0 has no valid estimate, column 1 has two
+    try:
+        I.getattr(I.get_global('limits', '_Limit'), '_get_arg_min')(table)
+    except _Stop:
+        pass
+    except InterpRaise as exc:
+        rep.violation('R-ARGMIN', 'limits._Limit._get_arg_min', where, {'raises': exc.exc_name, 'message': exc.msg[:100]},
+                      'a selection', 'one all-NaN column, one mixed column', key='argmin raises')
+        return
+    if not seen:
+        rep.undecided('R-ARGMIN', 'limits._Limit._get_arg_min', 'no nanargmin / nanmin call seen', 'one all-NaN column, one mixed column')
+        return
+    t = seen[0]
+    problems = []
+    if t.shape != (3, 2):
+        problems.append('table of shape %s' % (t.shape,))
+    else:
+        col1 = [t[r, 1] for r in range(3)]
+        if not isinstance(col1[0], NaNV):
+            problems.append('the NaN estimate of the mixed column became %r: it can now be selected' % (col1[0],))
+        if repr(col1[1]) != repr(e1) or repr(col1[2]) != repr(e2):
+            problems.append('valid estimates of the mixed column changed: %r' % (col1[1:],))
+    rep.check(not problems, 'R-ARGMIN', 'limits._Limit._get_arg_min', where,
+              {'table_handed_to_the_selection': [repr(v) for v in t.items()], 'problems': problems[:2]},
+              'NaN stays NaN in columns that have valid estimates', 'one all-NaN column, one mixed column', key='argmin table')
 
 
 def one(ctx, core, shape, method, n, order, full_output, rule_as=None):
